@@ -28,6 +28,20 @@ def odd_width(w):
     return w + 1 if w % 2 == 0 else w
 
 
+def window_mean(win):
+    """IEEE mean of a window: NaN if it holds a NaN or infinities of both signs, +-inf if it holds an
+    infinity of one sign, else the correctly rounded sum divided by the count."""
+    if any(v != v for v in win):
+        return float('nan')
+    pos = any(v == float('inf') for v in win)
+    neg = any(v == float('-inf') for v in win)
+    if pos and neg:
+        return float('nan')
+    if pos or neg:
+        return float('inf') if pos else float('-inf')
+    return math.fsum(win) / len(win)
+
+
 def smooth_ref(x, w, edge_truncate=False):
     """x: list of Python floats.  Returns (value, kind, scale) lists.
 
@@ -51,8 +65,8 @@ def smooth_ref(x, w, edge_truncate=False):
         else:
             continue
         assert len(win) == W
-        val[i] = math.fsum(win) / W
-        scale[i] = math.fsum(abs(v) for v in win) / W
+        val[i] = window_mean(win)
+        scale[i] = math.fsum(abs(v) for v in win if v == v and abs(v) != float('inf')) / W
     return val, kind, scale
 
 
